@@ -256,6 +256,54 @@ func (t *Tr) allocInvs(a *Addr) {
 	}
 }
 
+// escapes: is the address used other than as the target of loads, stores and
+// further address computations (i.e. does it become a first-class pointer)?
+func escapes(v ssa.Value) bool {
+	refs := v.Referrers()
+	if refs == nil {
+		return false
+	}
+	for _, r := range *refs {
+		switch r := r.(type) {
+		case *ssa.UnOp:
+			if r.Op == token.MUL {
+				continue
+			}
+			return true
+		case *ssa.Store:
+			if r.Addr == v && r.Val != v {
+				continue
+			}
+			return true
+		case *ssa.FieldAddr, *ssa.IndexAddr, *ssa.DebugRef:
+			continue
+		case ssa.CallInstruction:
+			continue // bound to the location itself by applyContract (Val.Ptr)
+		default:
+			return true
+		}
+	}
+	return false
+}
+
+// linkEscaping: an interior address that becomes a first-class pointer is
+// read elsewhere through the cell view of its pointee type; link the two
+// views at the point of escape.
+func (t *Tr) linkEscaping(v ssa.Value, a *Addr) {
+	if (a.Kind != aField && a.Kind != aElem) || !escapes(v) {
+		return
+	}
+	ty := a.storedType()
+	switch t.vc.sortOf(ty) {
+	case SInt_, SBool_, SSlc, SIfc:
+	default:
+		return
+	}
+	cell := &Addr{Kind: aCell, Heap: cellHeapName(ty), Obj: t.addrValue(a), Ty: ty}
+	t.assume(fmt.Sprintf("(= %s %s)", t.load(t.cur, cell).S, t.load(t.cur, a).S))
+	t.vc.Trusted["interior pointer that escapes is linked to its location at the point of escape (later writes through the other view are not tracked)"] = true
+}
+
 func (t *Tr) nilCheck(p ssa.Value, pos token.Pos) {
 	// only for pointers that are first-class values (params, loads, call results)
 	switch p.(type) {
@@ -289,6 +337,7 @@ func (t *Tr) fieldAddrInstr(in *ssa.FieldAddr) {
 	a := t.fieldAddr(sty, in.Field, obj)
 	t.addrs[in] = a
 	t.vals[in] = Term{t.define(in.Name(), SInt_, t.addrValue(a)), SInt_}
+	t.linkEscaping(in, a)
 }
 
 func (t *Tr) indexAddr(in *ssa.IndexAddr) {
@@ -300,6 +349,7 @@ func (t *Tr) indexAddr(in *ssa.IndexAddr) {
 		a := &Addr{Kind: aElem, Heap: elemHeapName(u.Elem()), Obj: fmt.Sprintf("(s-base %s)", x.S), Idx: linNorm(fmt.Sprintf("(+ (s-off %s) %s)", x.S, i.S)), Ty: u.Elem()}
 		t.addrs[in] = a
 		t.vals[in] = Term{t.addrValue(a), SInt_}
+		t.linkEscaping(in, a)
 	case *types.Pointer:
 		at := u.Elem().Underlying().(*types.Array)
 		t.nilCheck(in.X, in.Pos())
@@ -627,7 +677,7 @@ func (t *Tr) slice(in *ssa.Slice) {
 			hi = fmt.Sprintf("(strlen %s)", x.S)
 		}
 		t.safety("slice", fmt.Sprintf("(and (<= 0 %s) (<= %s %s) (<= %s (strlen %s)))", lo, lo, hi, hi, x.S), "string slice bounds in range", in.Pos())
-		t.vc.declFun("substr", "(declare-fun substr (Int Int Int) Int)\n(assert (forall ((s Int) (a Int) (b Int)) (! (=> (and (<= 0 a) (<= a b) (<= b (strlen s))) (= (strlen (substr s a b)) (- b a))) :pattern ((substr s a b)))))\n(assert (forall ((s Int) (a Int) (b Int) (i Int)) (! (=> (and (<= 0 a) (<= a b) (<= b (strlen s)) (<= 0 i) (< i (- b a))) (= (strat (substr s a b) i) (strat s (+ a i)))) :pattern ((strat (substr s a b) i)))))\n(assert (forall ((s Int)) (! (= (substr s 0 (strlen s)) s) :pattern ((substr s 0 (strlen s))))))")
+		t.declSubstr()
 		t.setVal(in, fmt.Sprintf("(substr %s %s %s)", x.S, lo, hi))
 	default:
 		t.havocVal(in)
@@ -723,6 +773,10 @@ func (t *Tr) convert(in *ssa.Convert) {
 			return
 		}
 		t.setVal(in, t.wrap(x.S, to))
+	case fi && t.vc.sortOf(to) == "Real":
+		// integer -> float: exact in the reals (float64 rounding of large magnitudes not modelled)
+		t.setVal(in, fmt.Sprintf("(to_real %s)", x.S))
+		t.vc.Trusted["int->float64 conversion treated as exact"] = true
 	case isStringType(from) && isByteSlice(to):
 		// []byte(s): fresh array with the string's bytes
 		t.vc.needStr()
